@@ -16,7 +16,7 @@ EXPLANATION = (
 
 
 def check(ctx, run):
-    run.rules_run = ['R03.1', 'R03.2', 'R03.3', 'R03.4', 'R03.5', 'R03.6']
+    run.rules_run = ['R03.1', 'R03.2', 'R03.3', 'R03.4', 'R03.5', 'R03.6', 'R03.7']
     rendering.r03_1_2(ctx, run)
     rendering.r03_3(ctx, run)
     rendering.r03_4(ctx, run)
@@ -24,5 +24,7 @@ def check(ctx, run):
     walkers.w_init(ctx, run, 'R03.5/R05.1', only=only, floor=2)
     walkers.w_advance(ctx, run, 'R03.5/R05.2', only=only, floor=1)
     textparser.r02_12(ctx, run, rule='R03.7/R02.12')
+    from rules import layout as _layout
+    _layout.r01_2(ctx, run, rule='R03.7/R01.2')
     return report.finish(run, level='other', explanation=EXPLANATION,
                          assumptions=["A1: valid document, finite numbers (the property's precondition)", "ryu / itoa print shortest round-trip digits (trusted)"])
